@@ -183,6 +183,52 @@ def run(prog: Program, chk: Check) -> None:
         chk.add("K3", u, f"range({norm(loop.iter.args[0])})", f == want,
                 f"bound {f}: final label (STEP+{offset})*dt = N*dt = 1/T" if f == want else
                 f"bound {f}, expected {want}: the last state would not be at 1/T", loop)
+    k4(prog, chk)
+
+
+def k4(prog: Program, chk: Check) -> None:
+    chk.rule("K4", "the Gibbs coefficients are Matsubara (imaginary-time) 2D integrals over cells of "
+             "the imaginary-time slice; the slice comes from the bath temperature; the free "
+             "propagator is exp(-H dt/2) (imaginary time step -i dt)", floor=4)
+    u = prog.unit("tempo:GibbsTempo._prepare_backend")
+    co = [v for v in prog.nested_units(u) if v.name == "coeffs"]
+    if not co:
+        raise AnalysisError("K4: coeffs closure vanished")
+    calls = [c for c in walk_local(co[0].node) if isinstance(c, ast.Call)
+             and isinstance(c.func, ast.Attribute) and c.func.attr == "correlation_2d_integral"]
+    if len(calls) != 1:
+        raise AnalysisError("K4: correlation_2d_integral call in coeffs not found")
+    c = calls[0]
+    kw = {k.arg: k.value for k in c.keywords}
+    ok = isinstance(kw.get("matsubara"), ast.Constant) and kw["matsubara"].value is True
+    chk.add("K4", co[0], f"correlation_2d_integral(.., matsubara={norm(kw['matsubara']) if 'matsubara' in kw else '<missing>'})",
+            ok, "" if ok else "real-time instead of imaginary-time integrals", c)
+    ok = len(c.args) >= 2 and norm(c.args[0]) == "self._dt" and norm(c.args[1]) in ("k * self._dt", "self._dt * k")
+    chk.add("K4", co[0], f"cell (delta={norm(c.args[0])}, time_1={norm(c.args[1])})", ok,
+            "" if ok else "the coefficient cells are not the grid of the imaginary-time slice", c)
+    init = prog.unit("tempo:GibbsTempo.__init__")
+    srcs = {dotted(st.targets[0]): norm(st.value) for st in walk_local(init.node)
+            if isinstance(st, ast.Assign) and dotted(st.targets[0])}
+    ok = srcs.get("self._dt") == "self._parameters.time_step_length(self._temperature)" and \
+        srcs.get("self._temperature") == "self._correlations.temperature" and \
+        srcs.get("self._correlations") == "self._bath.correlations"
+    chk.add("K4", init, f"self._dt = {srcs.get('self._dt')}", ok,
+            "slice from the bath temperature" if ok else
+            "the imaginary-time slice is not derived from the bath's temperature")
+    pc = [x for x in walk_local(u.node) if isinstance(x, ast.Call) and
+          isinstance(x.func, ast.Attribute) and x.func.attr == "get_unitary_propagators"]
+    ok = False
+    if len(pc) == 1 and pc[0].args:
+        def leaf(x):
+            if isinstance(x, ast.Constant) and isinstance(x.value, complex) and x.value.real == 0:
+                return Poly.sym("I") * Poly.const(int(x.value.imag))
+            if dotted(x) == "self._dt":
+                return Poly.sym("DT")
+            return None
+        f = eval_form(pc[0].args[0], leaf)
+        ok = f == -(Poly.sym("I") * Poly.sym("DT"))
+    chk.add("K4", u, f"get_unitary_propagators({norm(pc[0].args[0]) if pc else '?'}, ..)", ok,
+            "imaginary time step -i*dt" if ok else "the free propagator is not exp(-H dt/2)")
 
 
 def _normalised(du: DefUse, nid: int, v: ast.AST):
